@@ -34,3 +34,14 @@ Fixpoint futures_first (l : list stmt) : bool :=
   end.
 Definition wf_module (body : list stmt) : bool :=
   match body with SDoc :: r => futures_first r | _ => futures_first body end.
+
+(* ---- whether the line is needed (contains_import, _find_external.py:13-21): only a top-level `from inline_snapshot import <name>`
+   statement counts.  The same import nested in a function, a class, an `if` or a `try` block does not bind the name for the other
+   functions of the module (BNested), so the line is inserted all the same. *)
+Inductive bind := BTop | BNested | BNone.
+Definition estmt := (stmt * bind)%type.
+Definition binds_top (s : estmt) : bool := match s with (SImport, BTop) => true | _ => false end.
+Definition contains_import (body : list estmt) : bool := existsb binds_top body.
+Definition ensure_name (body : list estmt) : list estmt :=
+  if contains_import body then body
+  else firstn (insert_index (map fst body)) body ++ [(SImport, BTop)] ++ skipn (insert_index (map fst body)) body.
